@@ -199,3 +199,55 @@ func NewHeader(parent *types.BlockHeader, height uint64, qnInc uint64, prove *bi
 	}
 	return bh
 }
+
+// ExecResult is what one run of the block executor produced.
+type ExecResult struct {
+	State    *account.AccountDB
+	Root     common.Hash
+	Evicted  []common.Hash
+	Executed []*types.Transaction
+	Receipts []*types.Receipt
+	Panic    interface{}
+}
+
+// Exec runs the node's block executor (the same code path as block verification) for header/txs
+// on a fresh AccountDB opened at parentRoot. The process-global height is set to parentHeight
+// first, as it is when a node verifies the child of its head. Nothing is written to disk.
+func Exec(parentRoot common.Hash, parentHeight uint64, header *types.BlockHeader, txs []*types.Transaction, situation string) (res ExecResult) {
+	st, err := middleware.AccountDBManagerInstance.GetAccountDBByHash(parentRoot)
+	if err != nil {
+		res.Panic = fmt.Errorf("open state %s: %v", parentRoot.Hex(), err)
+		return
+	}
+	common.SetBlockHeight(parentHeight)
+	list := make([]*types.Transaction, len(txs))
+	for i, tx := range txs { // the executor sorts its list in place; keep the caller's slice intact
+		c := *tx
+		list[i] = &c
+	}
+	blk := &types.Block{Header: header, Transactions: list}
+	func() {
+		defer func() {
+			if r := recover(); r != nil {
+				res.Panic = r
+			}
+		}()
+		res.Root, res.Evicted, res.Executed, res.Receipts = core.VerifExecuteBlock(st, blk, situation)
+	}()
+	res.State = st
+	return
+}
+
+// Persist commits an executed state so that its root can be opened again.
+func Persist(st *account.AccountDB) (common.Hash, error) {
+	root, err := st.Commit(true)
+	if err != nil {
+		return root, err
+	}
+	return root, middleware.AccountDBManagerInstance.GetTrieDB().Commit(root, false)
+}
+
+// OpenState opens a cold AccountDB at root.
+func OpenState(root common.Hash) (*account.AccountDB, error) {
+	return middleware.AccountDBManagerInstance.GetAccountDBByHash(root)
+}
